@@ -151,7 +151,7 @@ Proof.
   destruct (reissue_time c) as [rt|]; auto.
   destruct (negb (reissued st) && cmp_eval reissue_cmp (now2 r - 2 * ts) (2 * rt)); auto.
   right. exists ts, u, tk, ud. split; auto.
-  destruct (remember c r u (max_age c) (filter nonempty tk)); simpl; auto.
+  destruct (remember c (later r) u (max_age c) (filter nonempty tk)); simpl; auto.
 Qed.
 
 (* the full statement of "never raises": for every cookie text (scalar values) that is not validly
@@ -192,7 +192,7 @@ Proof.
   - auto.
   - destruct (reissue_time c) as [rt|] eqn:RT; simpl; [|auto].
     rewrite reissue_cmp_gt. destruct (Z.ltb (2 * rt) (now2 r - 2 * ts)) eqn:CM.
-    + destruct (remember c r u (max_age c) (filter nonempty tk)) as [hs|] eqn:RM.
+    + destruct (remember c (later r) u (max_age c) (filter nonempty tk)) as [hs|] eqn:RM.
       * destruct Hs as [Hi Hc]. destruct (reissued st) eqn:RS; simpl.
         -- subst i. auto.
         -- subst i. simpl in Hc. rewrite Hc. simpl. auto.
@@ -247,7 +247,7 @@ Theorem reissued_ticket_is_fresh c r hs :
   spec_reissue_ticket c r = Some hs ->
   exists ts u tk ud rt, identify_pre c r = ISome ts u tk ud /\ reissue_time c = Some rt
     /\ cmp_eval reissue_cmp (now2 r - 2 * ts) (2 * rt) = true
-    /\ remember c r u (max_age c) (filter nonempty tk) = Some hs.
+    /\ remember c (later r) u (max_age c) (filter nonempty tk) = Some hs.
 Proof.
   unfold C09.spec_reissue_ticket. destruct (identify_pre c r) as [|ts u tk ud|]; try discriminate.
   destruct (reissue_time c) as [rt|]; try discriminate.
@@ -297,8 +297,8 @@ Definition ex_H (a : text) (x : list N) : text :=      (* a toy "hash": 4 hex di
   hex_pad 4 (fold_left (fun acc b => (acc * 31 + b + 7) mod 65536)%N x 0%N).
 Definition ex_cfg : cfg :=
   mkCfg [115; 101; 99]%N [116; 107]%N false false (Some 10%Z) (Some 3%Z) None false [47]%N true false None [109]%N (Some [76]%N).
-Definition ex_req (ck0 : option text) (nw : Z) : req := mkReq ck0 (IP4 [127; 0; 0; 1]%N) [104]%N nw false.
-Definition ex_req_half (ck0 : option text) (nw : Z) : req := mkReq ck0 (IP4 [127; 0; 0; 1]%N) [104]%N nw true.
+Definition ex_req (ck0 : option text) (nw : Z) : req := mkReq ck0 (IP4 [127; 0; 0; 1]%N) [104]%N nw false false.
+Definition ex_req_half (ck0 : option text) (nw : Z) : req := mkReq ck0 (IP4 [127; 0; 0; 1]%N) [104]%N nw true false.
 Definition ex_cookie : text :=
   match remember ex_H ex_cfg (ex_req None 1000) (VStr [98; 111; 98]%N) None [[97]%N] with
   | Some [k] => match ck_value k with Some v => v | None => [] end
@@ -340,3 +340,16 @@ Example half_second_boundary :
   /\ response_cookies (fst (run_ops ex_H (fun _ => 2%nat) (fun _ => 63%N) ex_cfg
                                    (ex_req (Some ex_cookie) 1003) st0 [OIdentify])) = [].
 Proof. vm_compute. repeat split; discriminate. Qed.
+
+(* a running clock: the reissued ticket is stamped by the later reading, explicit remember by the first one *)
+Definition ex_req_tick (ck0 : option text) (nw : Z) : req := mkReq ck0 (IP4 [127; 0; 0; 1]%N) [104]%N nw false true.
+Example running_clock :
+  match run_ops ex_H (fun _ => 2%nat) (fun _ => 63%N) ex_cfg (ex_req_tick (Some ex_cookie) 1005) st0 [OIdentify] with
+  | (st, _) => map (fun k => match ck_value k with Some v => firstn 8 (skipn 4 v) | None => [] end) (response_cookies st)
+               = [hex_pad 8 1006]
+  end
+  /\ match remember ex_H ex_cfg (ex_req_tick None 1005) (VInt 1) None [] with
+     | Some [k] => match ck_value k with Some v => firstn 8 (skipn 4 v) | None => [] end = hex_pad 8 1005
+     | _ => False
+     end.
+Proof. vm_compute. split; reflexivity. Qed.
